@@ -40,6 +40,10 @@ fn elf_flags_to_prot(flags: u32) -> u32 {
     proc_flags
 }
 
+/// Largest segment the loader is willing to map. A corrupted p_memsz must not make the loader
+/// attempt (and abort on) an allocation that has nothing to do with the size of the input.
+const MAX_SEGMENT_MEMORY_SIZE: u64 = 1 << 30;
+
 fn round_up_to_page_size(size: u64) -> Option<u64> {
     size.checked_add(0xfff).map(|s| s & !0xfff)
 }
@@ -187,6 +191,13 @@ impl Axecutor {
                         segment.p_memsz,
                         segment.p_offset,
                     );
+
+                    if segment.p_memsz > MAX_SEGMENT_MEMORY_SIZE {
+                        return Err(AxError::from(format!(
+                            "ELF: Segment memory size {:#x} exceeds the supported maximum of {:#x}",
+                            segment.p_memsz, MAX_SEGMENT_MEMORY_SIZE
+                        )));
+                    }
 
                     let memsz = round_up_to_page_size(segment.p_memsz).ok_or_else(|| {
                         AxError::from(format!(
